@@ -280,6 +280,7 @@ pub fn run(plan: &Plan, calls: &[BCall], start: &BStart) -> RunOut {
     }
     probes.extra.insert("builder_sequences", 1);
     RunOut {
+        log: Vec::new(),
         violations: v,
         probes,
         counters: FaultCounters::default(),
